@@ -5,7 +5,7 @@
 From Coq Require Import ZArith List Bool Lia.
 Import ListNotations.
 From Osmo Require Import Base.DecModel CL.TickMath CL.CLMath CL.CLPool CL.CLSwap CL.CLStep
-  CLR.Accum CLR.Rewards CLR.RSwap CLR.RStep C07.Base C07.TickLemmas C07.LP C07.SwapDir C07.Swap C07.Proofs C03.Rounding C03.Steps
+  CLR.Accum CLR.Rewards CLR.RSwap CLR.RStep C07.Base C07.TickLemmas C07.LP C07.SwapDir C07.Swap C07.Proofs C03.Rounding C03.Steps C03.Path
   C08.Proj C08.Telescope C08.View C08.Static C08.Stages C08.Ops C08.OpInside C08.SwapTrace C08.Crux
   C08.Claim C08.Conseq C08.Frame C08.Never C08.SwapWf C08.Dom C08.StaticOk C08.Paid C08.PaidOps.
 Open Scope Z_scope.
@@ -68,4 +68,165 @@ Proof.
   - cbn [in_range_growth grow_inside].
     assert (A : a_step (view (CS d) w c (dc_one din pending)) (AMove t) = view (CS d) w t (dc_one din pending)) by reflexivity.
     rewrite A, (IH _ _ _ _ _ _ _ _ l u H). reflexivity.
+Qed.
+
+(* ---------- one step: growth per unit x active liquidity <= fee x scaling ---------- *)
+Lemma update_fee_growth_value : forall sc st fee st1, update_fee_growth sc st fee = Some st1 -> 0 <= fee -> 0 < sc -> 0 <= ss_liq st ->
+  0 <= ss_growth st1 - ss_growth st /\ (ss_growth st1 - ss_growth st) * ss_liq st <= fee * sc /\ ss_fee st1 = ss_fee st + fee.
+Proof.
+  unfold update_fee_growth. intros sc st fee st1 H Hf Hsc Hl. pose proof P18_pos as HP.
+  assert (FS : 0 <= fee * sc) by nia.
+  destruct (if sc =? P18 then Some fee else dchk (d_mul_truncate fee sc)) as [scaled|] eqn:ES; [|discriminate H]. cbv beta iota in H.
+  assert (SB : 0 <= scaled /\ scaled * P18 <= fee * sc).
+  { destruct (sc =? P18) eqn:E.
+    - apply Z.eqb_eq in E. inversion ES; subst. split; [exact Hf|lia].
+    - apply dchk_some in ES. subst scaled. unfold d_mul_truncate, chop_trunc.
+      destruct (quot_bounds (fee * sc) P18 FS HP) as [A _]. split; [apply Z.quot_pos; lia|lia]. }
+  destruct SB as [S0 S1].
+  destruct (dchk (ss_fee st + fee)) as [tot|] eqn:ET; [|discriminate H]. cbv beta iota in H. apply dchk_some in ET. subst tot.
+  destruct (ss_liq st =? 0) eqn:EL.
+  - inversion H; subst. simpl. apply Z.eqb_eq in EL. rewrite EL. lia.
+  - apply Z.eqb_neq in EL.
+    destruct (dchk (d_quo_truncate scaled (ss_liq st))) as [per|] eqn:EP; [|discriminate H]. cbv beta iota in H. apply dchk_some in EP.
+    destruct (dchk (ss_growth st + per)) as [g|] eqn:EG; [|discriminate H]. apply dchk_some in EG. inversion H; subst. simpl.
+    unfold d_quo_truncate. assert (LP : 0 < ss_liq st) by lia. assert (N : 0 <= scaled * P18) by nia.
+    destruct (quot_bounds (scaled * P18) (ss_liq st) N LP) as [A _].
+    assert (Q0 : 0 <= Z.quot (scaled * P18) (ss_liq st)) by (apply Z.quot_pos; lia).
+    replace (ss_growth st + Z.quot (scaled * P18) (ss_liq st) - ss_growth st) with (Z.quot (scaled * P18) (ss_liq st)) by lia.
+    split; [exact Q0|]. split; [|reflexivity]. nia.
+Qed.
+
+Lemma step_events_value : forall s zfo sc st nt info rest nts computed dspec dcalc fee st' iter',
+  LI s zfo st ((nt, info) :: rest) -> 0 <= ss_liq st -> 0 <= fee -> 0 < sc ->
+  after_step zfo true sc st ((nt, info) :: rest) nt info nts computed dspec dcalc fee = Some (st', iter') ->
+  evalue (s_pos s) zfo (ss_tick st) (step_events zfo true sc st nt nts computed fee) <= fee * sc /\
+  0 <= evalue (s_pos s) zfo (ss_tick st) (step_events zfo true sc st nt nts computed fee) /\
+  ss_fee st' = ss_fee st + fee.
+Proof.
+  intros s zfo sc st nt info rest nts computed dspec dcalc fee st' iter' [L1 _] Hl Hf Hsc H.
+  unfold after_step in H. unfold step_events.
+  destruct (update_fee_growth sc st fee) as [st1|] eqn:E1; [|discriminate H]. cbv beta iota in H.
+  destruct (update_fee_growth_value _ _ _ _ E1 Hf Hsc Hl) as [G0 [GV F]].
+  assert (TAIL : forall tl, (forall g, ~ In (EvGrow g) tl) -> forall c, evalue (s_pos s) zfo c tl = 0).
+  { induction tl as [|e r IHr]; intros NG c; simpl; [reflexivity|]. destruct e as [g|i|t].
+    - exfalso. apply (NG g). left. reflexivity.
+    - apply IHr. intros g X. apply (NG g). right. exact X.
+    - apply IHr. intros g X. apply (NG g). right. exact X. }
+  assert (FEE : ss_fee st' = ss_fee st + fee).
+  { destruct (dchk (ss_remaining st1 - dspec)) as [rem|]; [|discriminate H]. cbv beta iota in H.
+    destruct (dchk (ss_calculated st1 + dcalc)) as [calc|]; [|discriminate H]. cbv beta iota in H.
+    destruct (nts =? computed).
+    - unfold cross_tick in H. simpl in H. destruct (dchk _); [|discriminate H]. inversion H; subst. simpl. exact F.
+    - destruct (edge_case zfo nts computed); [discriminate H|]. destruct (negb (ss_sqrt st =? computed)).
+      + destruct (calculate_sqrt_price_to_tick computed); [|discriminate H]. inversion H; subst. simpl. exact F.
+      + inversion H; subst. simpl. exact F. }
+  cbn [evalue]. rewrite TAIL.
+  - rewrite <- L1. split; [lia|]. split; [nia|exact FEE].
+  - intros g X. destruct (nts =? computed); [destruct X as [X|[]]; discriminate X|].
+    destruct (edge_case zfo nts computed); [destruct X|]. destruct (negb (ss_sqrt st =? computed)); [|destruct X].
+    destruct (calculate_sqrt_price_to_tick computed); [destruct X as [X|[]]; discriminate X|destruct X].
+Qed.
+
+(* ---------- the whole loop ---------- *)
+Lemma eloop_out_value : forall s fuel zfo sc limit st iter noprog st' evs, Inv s -> 0 < sc ->
+  sqrt_price_limit zfo = Some limit -> LI s zfo st iter ->
+  eloop_out_given_in fuel zfo true (p_spread (s_pool s)) sc limit st iter noprog = (Some st', evs) ->
+  0 <= evalue (s_pos s) zfo (ss_tick st) evs <= (ss_fee st' - ss_fee st) * sc.
+Proof.
+  intros s fuel. induction fuel as [|f IH]; intros zfo sc limit st iter noprog st' evs I Hsc HL L H; simpl in H; [discriminate H|].
+  destruct ((smallest_dec <? ss_remaining st) && negb (ss_sqrt st =? limit)) eqn:Econd; [|inversion H; subst; simpl; lia].
+  apply andb_true_iff in Econd. destruct Econd as [Erem _]. apply Z.ltb_lt in Erem. unfold smallest_dec in Erem.
+  destruct iter as [|[nt info] rest]; [discriminate H|].
+  destruct (tick_to_sqrt_price nt) as [nts|] eqn:Snt; [|discriminate H].
+  destruct (LI_facts s zfo st nt info rest nts I L Snt) as [Fl [Fr Fz]].
+  rewrite (sqrt_target_next zfo limit nt nts HL Fr Snt) in H.
+  destruct (compute_out_given_in zfo (p_spread (s_pool s)) (ss_sqrt st) nts (ss_liq st) (ss_remaining st)) as [[[[computed ain] aout] fee]|] eqn:EC; [|discriminate H].
+  destruct (negb (progress_ok computed (ss_sqrt st) ain aout)); [discriminate H|].
+  destruct (dchk (ain + fee)) as [infee|]; [|discriminate H].
+  destruct (after_step zfo true sc st ((nt, info) :: rest) nt info nts computed infee aout fee) as [[st1 iter1]|] eqn:EA; [|discriminate H].
+  pose proof L as L0. destruct L0 as [_ [L2 _]].
+  assert (Dir : computed = nts \/ computed = ss_sqrt st \/ dir_ok zfo (ss_sqrt st) computed).
+  { destruct (compute_out_given_in_dir _ _ _ _ _ _ _ _ _ _ EC Fl L2 Erem (inv_spread s I) Fz) as [D|D]; [left; assumption|right; right; assumption]. }
+  assert (L' : LI s zfo st1 iter1) by (eapply after_step_LI; try eassumption; reflexivity).
+  destruct (after_step_sqrt_rem _ _ _ _ _ _ _ _ _ _ _ _ _ _ EA) as [Q1 _].
+  assert (Cpos : 0 < computed) by (destruct L' as [_ [P _]]; rewrite Q1 in P; exact P).
+  destruct (out_given_in_step _ _ _ _ _ _ _ _ _ _ EC Fl L2 Cpos Erem (inv_spread s I) Fz) as [_ [_ [F0 _]]].
+  destruct (step_events_value _ _ _ _ _ _ _ _ _ _ _ _ _ _ L Fl F0 Hsc EA) as [V1 [V0 FE]].
+  pose proof (after_step_tick _ _ _ _ _ _ _ _ _ _ _ _ _ _ EA) as T1.
+  destruct (ain =? 0).
+  - destruct (swap_no_progress_limit <=? noprog); [discriminate H|].
+    destruct (eloop_out_given_in f zfo true (p_spread (s_pool s)) sc limit st1 iter1 (noprog + 1)) as [r1 evs1] eqn:EL. inversion H; subst.
+    rewrite evalue_app, <- T1. pose proof (IH _ _ _ _ _ _ _ _ I Hsc HL L' EL). nia.
+  - destruct (eloop_out_given_in f zfo true (p_spread (s_pool s)) sc limit st1 iter1 noprog) as [r1 evs1] eqn:EL. inversion H; subst.
+    rewrite evalue_app, <- T1. pose proof (IH _ _ _ _ _ _ _ _ I Hsc HL L' EL). nia.
+Qed.
+
+Lemma eloop_in_value : forall s fuel zfo sc limit st iter noprog st' evs, Inv s -> 0 < sc ->
+  sqrt_price_limit zfo = Some limit -> LI s zfo st iter -> 0 <= ss_remaining st ->
+  eloop_in_given_out fuel zfo true (p_spread (s_pool s)) sc limit st iter noprog = (Some st', evs) ->
+  0 <= evalue (s_pos s) zfo (ss_tick st) evs <= (ss_fee st' - ss_fee st) * sc.
+Proof.
+  intros s fuel. induction fuel as [|f IH]; intros zfo sc limit st iter noprog st' evs I Hsc HL L HR H; simpl in H; [discriminate H|].
+  destruct ((smallest_dec <? ss_remaining st) && negb (ss_sqrt st =? limit)) eqn:Econd; [|inversion H; subst; simpl; lia].
+  apply andb_true_iff in Econd. destruct Econd as [Erem _]. apply Z.ltb_lt in Erem. unfold smallest_dec in Erem.
+  destruct iter as [|[nt info] rest]; [discriminate H|].
+  destruct (tick_to_sqrt_price nt) as [nts|] eqn:Snt; [|discriminate H].
+  destruct (LI_facts s zfo st nt info rest nts I L Snt) as [Fl [Fr Fz]].
+  rewrite (sqrt_target_next zfo limit nt nts HL Fr Snt) in H.
+  destruct (compute_in_given_out zfo (p_spread (s_pool s)) (ss_sqrt st) nts (ss_liq st) (ss_remaining st)) as [[[[computed aout] ain] fee]|] eqn:EC; [|discriminate H].
+  destruct (negb (progress_ok computed (ss_sqrt st) ain aout)); [discriminate H|].
+  destruct (dchk (ain + fee)) as [infee|]; [|discriminate H].
+  destruct (after_step zfo true sc st ((nt, info) :: rest) nt info nts computed aout infee fee) as [[st1 iter1]|] eqn:EA; [|discriminate H].
+  pose proof L as L0. destruct L0 as [_ [L2 _]].
+  assert (Dir : computed = nts \/ computed = ss_sqrt st \/ dir_ok zfo (ss_sqrt st) computed).
+  { destruct (compute_in_given_out_dir _ _ _ _ _ _ _ _ _ _ EC Fl L2 Erem) as [D|D]; [left; assumption|right; right; assumption]. }
+  assert (L' : LI s zfo st1 iter1) by (eapply after_step_LI; try eassumption; reflexivity).
+  destruct (after_step_sqrt_rem _ _ _ _ _ _ _ _ _ _ _ _ _ _ EA) as [Q1 [Q2 _]].
+  assert (Cpos : 0 < computed) by (destruct L' as [_ [P _]]; rewrite Q1 in P; exact P).
+  assert (SPF : 0 <= p_spread (s_pool s) < P18) by (pose proof (inv_spread s I); rewrite P18_val; lia).
+  destruct (in_given_out_step _ _ _ _ _ _ _ _ _ _ EC Fl L2 Cpos HR SPF) as [_ [_ [F0 [AR _]]]].
+  destruct (step_events_value _ _ _ _ _ _ _ _ _ _ _ _ _ _ L Fl F0 Hsc EA) as [V1 [V0 FE]].
+  pose proof (after_step_tick _ _ _ _ _ _ _ _ _ _ _ _ _ _ EA) as T1.
+  assert (HR1 : 0 <= ss_remaining st1) by lia.
+  destruct (aout =? 0).
+  - destruct (swap_no_progress_limit <=? noprog); [discriminate H|].
+    destruct (eloop_in_given_out f zfo true (p_spread (s_pool s)) sc limit st1 iter1 (noprog + 1)) as [r1 evs1] eqn:EL. inversion H; subst.
+    rewrite evalue_app, <- T1. pose proof (IH _ _ _ _ _ _ _ _ I Hsc HL L' HR1 EL). nia.
+  - destruct (eloop_in_given_out f zfo true (p_spread (s_pool s)) sc limit st1 iter1 noprog) as [r1 evs1] eqn:EL. inversion H; subst.
+    rewrite evalue_app, <- T1. pose proof (IH _ _ _ _ _ _ _ _ I Hsc HL L' HR1 EL). nia.
+Qed.
+
+(* ---------- whole swaps ---------- *)
+Lemma swap_in_value : forall s zfo amt evs r, Inv s -> 0 < p_scaling (s_pool s) ->
+  swap_events s true zfo amt = Some evs -> compute_out_amt_given_in s zfo true amt = Some r ->
+  0 <= evalue (s_pos s) zfo (p_tick (s_pool s)) evs <= sr_fee r * p_scaling (s_pool s).
+Proof.
+  unfold swap_events, compute_out_amt_given_in. intros s zfo amt evs r I Hsc HE HC.
+  destruct (swap_setup s zfo) as [[limit iter]|] eqn:ES; [|discriminate HE]. cbv beta iota in HE, HC.
+  destruct (swap_setup_LI s zfo limit iter (d_from_int amt) I ES) as [HL [_ L]].
+  destruct (eloop_out_given_in _ _ _ _ _ _ _ _ _) as [ro evs1] eqn:EL.
+  pose proof (eloop_out_fst (swap_fuel (s_ticks s)) zfo true (p_spread (s_pool s)) (p_scaling (s_pool s)) limit
+                (mkSS (d_from_int amt) 0 (p_sqrt (s_pool s)) (p_tick (s_pool s)) (p_liq (s_pool s)) 0 0) iter 0) as FST.
+  rewrite EL in FST. simpl in FST. rewrite <- FST in HC.
+  destruct ro as [st|]; [|discriminate HE]. inversion HE; subst evs1. cbv beta iota in HC.
+  destruct (ss_remaining st <? 0); [discriminate HC|]. inversion HC; subst r. simpl.
+  pose proof (eloop_out_value _ _ _ _ _ _ _ _ _ _ I Hsc HL L EL) as V. simpl in V. rewrite Z.sub_0_r in V. exact V.
+Qed.
+
+Lemma swap_out_value : forall s zfo amt evs r, Inv s -> 0 < p_scaling (s_pool s) -> 0 <= amt ->
+  swap_events s false zfo amt = Some evs -> compute_in_amt_given_out s zfo true amt = Some r ->
+  0 <= evalue (s_pos s) zfo (p_tick (s_pool s)) evs <= sr_fee r * p_scaling (s_pool s).
+Proof.
+  unfold swap_events, compute_in_amt_given_out. intros s zfo amt evs r I Hsc Ha HE HC.
+  destruct (swap_setup s zfo) as [[limit iter]|] eqn:ES; [|discriminate HE]. cbv beta iota in HE, HC.
+  destruct (swap_setup_LI s zfo limit iter (d_from_int amt) I ES) as [HL [_ L]].
+  destruct (eloop_in_given_out _ _ _ _ _ _ _ _ _) as [ro evs1] eqn:EL.
+  pose proof (eloop_in_fst (swap_fuel (s_ticks s)) zfo true (p_spread (s_pool s)) (p_scaling (s_pool s)) limit
+                (mkSS (d_from_int amt) 0 (p_sqrt (s_pool s)) (p_tick (s_pool s)) (p_liq (s_pool s)) 0 0) iter 0) as FST.
+  rewrite EL in FST. simpl in FST. rewrite <- FST in HC.
+  destruct ro as [st|]; [|discriminate HE]. inversion HE; subst evs1. cbv beta iota in HC.
+  destruct (ss_remaining st <? 0); [discriminate HC|]. inversion HC; subst r. simpl.
+  assert (HR : 0 <= ss_remaining (mkSS (d_from_int amt) 0 (p_sqrt (s_pool s)) (p_tick (s_pool s)) (p_liq (s_pool s)) 0 0)).
+  { simpl. unfold d_from_int. pose proof P18_pos. nia. }
+  pose proof (eloop_in_value _ _ _ _ _ _ _ _ _ _ I Hsc HL L HR EL) as V. simpl in V. rewrite Z.sub_0_r in V. exact V.
 Qed.
